@@ -412,6 +412,39 @@ func checkTemplateReplace(p *Prog, r *Report) {
 				fromIncoming = false
 			}
 		}
+		// the stored list is handed out by the lookup and iterated by decoders after the lock is released: it must be a
+		// list of its own, never the previous list's array written in place
+		reused := false
+		for _, s := range stores {
+			seen := map[ssa.Value]bool{}
+			var walk func(v ssa.Value)
+			walk = func(v ssa.Value) {
+				v = stripChange(v)
+				if v == nil || seen[v] {
+					return
+				}
+				seen[v] = true
+				switch x := v.(type) {
+				case *ssa.Phi:
+					for _, e := range x.Edges {
+						walk(e)
+					}
+				case *ssa.Slice:
+					walk(x.X)
+				case *ssa.Call:
+					if b, ok := x.Call.Value.(*ssa.Builtin); ok && b.Name() == "append" {
+						walk(x.Call.Args[0])
+					}
+				case *ssa.UnOp:
+					if tn, fn, _, ok := loadedField(x); ok && tn == "pkg/collector.template" && fn == "ies" {
+						reused = true
+					}
+				}
+			}
+			walk(s.Val)
+		}
+		r.Check(!reused, "R-GATE.fresh-list", fnKey(at)+": the stored field list is a new slice", p.pos(at.Pos()), "built by make/append from nil, not from the list stored before",
+			"the new field list is written into the array of the previous one (tpl.ies[:0] + append): a decoder that obtained the list from the lookup iterates it without the lock while it is overwritten (data race between client goroutines; a mix of old and new fields is decoded)", true)
 		switch {
 		case bad:
 			r.Violation("R-GATE.replace", fnKey(at)+": field list replaced unconditionally", p.pos(at.Pos()), "a path through addTemplate keeps the previous field list (tpl.ies not stored): a valid replacement template is ignored and data is decoded with the old definition; path "+p.describePath(at, trail))
